@@ -258,6 +258,10 @@ func (msg *MessageAuth) FromBytes(src []byte) error {
 	for i := 0; i < q; i++ {
 		chunk = &MessageChunk{}
 		p = i * (MessageChunkBytesMax + 2)
+		if p == l {
+			// the previous chunk was full and ended the source
+			break
+		}
 
 		chunk.Length = src[p]
 		if (q > 1 && i < q-1 && int(chunk.Length) != MessageChunkBytesMax) ||
